@@ -39,6 +39,8 @@ feat = ""
 m = re.search(r"--features[ =]+(\"[^\"]+\"|\S+)", meta.get("demo_command", ""))
 if m:
     feat = "--features " + m.group(1)
+if "--no-default-features" in meta.get("demo_command", ""):
+    feat = "--no-default-features " + feat
 name = f"verif_demo_{ID.lower()}_{K}"
 demo_dst = os.path.join(WT, TESTS, name + ".rs")
 demo_cmd = f"nice cargo test --offline -j 8 -p {PKG} --test {name} {feat}"
